@@ -1,9 +1,12 @@
 \* KernelArgs: signatures of <= 2 parameters over ParamsFull, argument lists of <= 3 over ArgsFull;
 \* InitWhenEmpty = TRUE (the repaired code)
+\* plus one signature per fixed-array parameter  [const] [typedef'd] T a[n],  12 base spellings x n in {1,2,4}, and per pointer form T *a
 SPECIFICATION Spec
 CONSTANTS
   ParamTypes <- ParamsFull
   ArgKinds <- ArgsFull
+  ArrayParams <- ArraysAndPointers
+  ArrayArgs <- ArrayArgsAll
   MaxParams = 2
   MaxArgs = 3
   InitWhenEmpty = TRUE
